@@ -83,6 +83,10 @@ def setup(ctx):
                  {'convert_element', 'convert_implicit', 'convert_explicit', 'convert_compound'}, found)
     for name, code in found.items():
         reach.codes[code] = name
+    for name in ('convert_element', 'convert_implicit', 'convert_explicit', 'convert_compound'):
+        if name not in found:      # parse actions were renamed / moved: the counter is evidence only
+            ctx.count('anchor_missing.reach.' + name)
+            ctx.note('parse action %r not found in formula_grammar (refactored source); reach requirement waived' % name)
     reach.watch(core.IonSet.__getitem__, 'IonSet.__getitem__')
     reach.watch(core.Element.__getitem__, 'Element.__getitem__')
     reach.watch(core.PeriodicTable.symbol, 'PeriodicTable.symbol')
